@@ -5,7 +5,7 @@ from .. import alg, fitmodel as fm
 from ..alg import Poly, P, B, C, sym, sum_over, lt, mk_fn, Facts
 from ..interp import Interp, Hooks, Arr, Obj, Unk, symarr, scalar, num
 from ..fitmodel import W, M, D, loc, compare
-from ..rules import getstate_keys
+from ..rules import getstate_keys, state_keys
 from ..loader import AnalysisError
 
 EXPLANATION = (
@@ -27,8 +27,7 @@ def check_sort(ctx):
     repo = ctx.repo
     ci = repo.cls('fit_info', 'FitInfo')
     srt = ctx.fn(repo.func('fit_info', 'FitInfo.sort'))
-    gs = repo.func('fit_info', 'FitInfo.__getstate__')
-    keys = getstate_keys(gs)
+    keys = state_keys(repo, ci)
     if not keys:
         raise AnalysisError('FitInfo.__getstate__ keys not found')
     per_fit = [k for k in keys if k not in ('source',)]
